@@ -290,6 +290,84 @@ async fn mark_of(h: &History, a: &Node, known: &BTreeSet<Hash>) -> Mark {
     Mark { ops, tip: chain.get_latest_block_hash(), tip_id: chain.get_latest_block_id(), known: known.clone(), utxo: in_window_utxo(&chain, h.cfg.params.gp), supply: supply(&chain, h.cfg.params.gp) }
 }
 
+/// restart in the middle of a history, let the restarted node live through the rest of it, then
+/// restart once more: what the first start-up did to the files (its clean-up of "unreferenced"
+/// block files) must not cost the second one its chain
+async fn continuation(h: &mut History, files_at_k: BTreeMap<String, Vec<u8>>, rest: &[Hash], label: &str, rep: &mut Report, witness: &serde_json::Value) {
+    use saito_core::core::consensus::wallet::Wallet;
+    let key = h.b.actors[h.cfg.replica_key].clone();
+    let mut b_node = Node::new(&key, &h.cfg.params, MemIo::from_files(files_at_k), VClock::new(T0 + 7_200_000), vec![], "http://b.example:1");
+    {
+        let wallet = b_node.wallet.clone();
+        let io = b_node.io.boxed();
+        if crate::panics::catch_async(async move {
+            let mut w = wallet.write().await;
+            Wallet::load(&mut w, io.as_ref()).await;
+        })
+        .await
+        .is_err()
+        {
+            return;
+        }
+    }
+    if b_node.init().await.is_err() {
+        return;
+    }
+    for hsh in rest {
+        let bytes = h.b.store.get(hsh).bytes.clone();
+        if deliver(&mut b_node, &bytes).await.is_err() {
+            rep.count("continuation_restart_delivery_panicked");
+            return;
+        }
+    }
+    let (b_id, b_tip) = b_node.tip().await;
+    let files = b_node.io.files();
+    let mut c_node = Node::new(&key, &h.cfg.params, MemIo::from_files(files.clone()), VClock::new(T0 + 9_000_000), vec![], "http://c.example:1");
+    {
+        let wallet = c_node.wallet.clone();
+        let io = c_node.io.boxed();
+        let _ = crate::panics::catch_async(async move {
+            let mut w = wallet.write().await;
+            Wallet::load(&mut w, io.as_ref()).await;
+        })
+        .await;
+    }
+    rep.eval();
+    rep.count("second_restarts");
+    let wit = || {
+        let mut w = witness.clone();
+        w["case"] = json!(format!("{} / second restart", label));
+        w["files"] = json!(files.iter().map(|(k, v)| (k.clone(), hex::encode(v))).collect::<Vec<_>>());
+        w["replica_key"] = json!(h.cfg.replica_key);
+        w
+    };
+    if let Err(p) = c_node.init().await {
+        rep.violation(&format!("C12|clause=restart-panics|stage=second-restart|{}", p.signature()), &format!("{}: the second start-up panicked: {}", label, p.message), wit());
+        return;
+    }
+    let (c_id, c_tip) = c_node.tip().await;
+    if c_tip == b_tip {
+        rep.count("second_restarts_same_tip");
+        return;
+    }
+    let (holds_tip, holds_recent) = {
+        let chain = c_node.chain.read().await;
+        (chain.blocks.contains_key(&b_tip), h.b.store.has(&b_tip) && h.b.store.ancestors(&b_tip).iter().rev().take(4).all(|x| chain.blocks.contains_key(x)))
+    };
+    let sig = if c_id == b_id && h.b.store.has(&c_tip) && h.b.store.chain_valid(&c_tip) {
+        "C12|clause=clean-restart-tip-differs|cause=equal-length-branches-load-order"
+    } else if holds_tip && holds_recent && h.b.store.has(&c_tip) && h.b.store.chain_valid(&c_tip) {
+        "C12|clause=clean-restart-tip-differs|cause=shorter-branch-kept-fork-choice-depends-on-arrival-order"
+    } else {
+        "C12|clause=second-restart-loses-the-chain"
+    };
+    rep.violation(
+        sig,
+        &format!("{}: the node restarted, lived through {} more blocks and sat at {} ({}); after a second clean restart it sits at {} ({}) (holds the old tip: {}, its last ancestors: {})", label, rest.len(), b_id, hex::encode(&b_tip[..3]), c_id, hex::encode(&c_tip[..3]), holds_tip, holds_recent),
+        wit(),
+    );
+}
+
 async fn one_history(ctx: &Ctx, rng: &mut Rng, gp: u64, len: usize, fork_permille: u64, rep: &mut Report) {
     let mut params = Params::with_gp(gp);
     params.prune_after = 8;
@@ -355,9 +433,16 @@ async fn one_history(ctx: &Ctx, rng: &mut Rng, gp: u64, len: usize, fork_permill
     // state of A at journal position k: the last mark whose ops <= k
     let mark_at = |k: usize| -> &Mark { marks.iter().rev().find(|m| m.ops <= k).unwrap() };
     let mut files = f0.clone();
+    let clean_ks: Vec<usize> = marks.iter().map(|m| m.ops).collect();
+    // every second clean point that leaves at least three blocks to come
+    let wanted: Vec<usize> = clean_ks.iter().enumerate().filter(|(i, _)| i % 2 == 1).map(|(_, k)| *k).collect();
+    let mut captured: Vec<(usize, BTreeMap<String, Vec<u8>>)> = vec![];
     // budget: every k gets complete + absent; torn variants for a sample of the write ops
     let torn_every = if ctx.thorough { 1 } else { 3 };
     for k in 0..=journal.len() {
+        if wanted.contains(&k) && !captured.iter().any(|(kk, _)| *kk == k) {
+            captured.push((k, files.clone()));
+        }
         // --- all of ops[0..k] complete
         let m = mark_at(k);
         let clean = marks.iter().any(|mm| mm.ops == k);
@@ -393,6 +478,12 @@ async fn one_history(ctx: &Ctx, rng: &mut Rng, gp: u64, len: usize, fork_permill
             }
         }
         apply_op(&mut files, &op, None);
+    }
+    for (k, f) in captured {
+        let rest: Vec<Hash> = delivered.iter().filter(|(start, _)| *start >= k).map(|(_, x)| *x).collect();
+        if rest.len() >= 3 {
+            continuation(&mut h, f, &rest, &format!("restart at ops[0..{}], then {} more blocks", k, rest.len()), rep, &witness).await;
+        }
     }
 }
 
